@@ -16,7 +16,10 @@
 //  7. long-lived connections (script longidle, one extra case per server running next to the others): every proxy
 //     kind, data in both directions again 35 s after the connection was opened;
 //  8. tunnels ending in client plugins (plugin.go) next to many short compressed connections of other proxies;
-//  9. route churn (churn.go): a sibling vhost route is removed and re-added, identity of the others throughout.
+//  9. route churn (churn.go): duplicate registrations for a served route are refused and change nothing; a sibling
+//     vhost route is removed and re-added; identity of the others throughout;
+//
+// 10. control-connection loss with tcpMux off (client behind a relay): established tunnels of every kind outlive it.
 //
 // Violation keys (stable identities): stream-altered-up|down, bytes-injected, cross-wired, connection-duplicated,
 // unattributed-backend-connection, orderly-close-truncated-up|down, unprompted-close, delivery-stalled,
@@ -24,7 +27,9 @@
 // server-mode|client-mode[-compressed], proxy-protocol-*, sniffed-prefix-not-replayed, tcpmux-early-data-lost,
 // tcpmux-connect-not-answered, https-tls-handshake-failed, greeting-not-delivered,
 // visitor-connection-dropped-when-backend-speaks-first, backend-connection-left-open,
-// long-lived-connection-broken-after-idle-<kind>, cross-wired-after-sibling-route-removed, stream-altered-down|unprompted-close|delivery-stalled-via-client-plugin.
+// long-lived-connection-broken-after-idle-<kind>, cross-wired-after-sibling-route-removed,
+// cross-wired-after-refused-duplicate-registration, route-lost-after-refused-duplicate-registration,
+// duplicate-route-registration-accepted[-after-refused-one], established-tunnel-cut-by-control-connection-loss-without-tcpmux, stream-altered-down|unprompted-close|delivery-stalled-via-client-plugin.
 package main
 
 import (
@@ -98,7 +103,7 @@ transport.maxPoolCount = 5
 
 func main() {
 	run = h.NewRun(prop, "exploration")
-	run.Rule = "case = (server option set, control transport, TLS mode, pool size; 2-3 proxies each with kind, encryption, compression, limiter side+rate, PROXY version, greeting; 3-8 (sometimes 16-36 small simultaneous) connection scripts each with payload sizes, content classes, chunkings, close order); the first cases form a greedy all-pairs covering array over the option factors, the rest are PRNG extras, plus four long-lived cases running next to the others (one per server: every proxy kind, data again in both directions 35 s after the connection was opened) and nine (thorough: 21) fixed cases (route churn: sibling tcpmux routes told apart by routeByHTTPUser / sibling https domains plus a wildcard route, one sibling removed by frpc reload or frpc exit and re-added; compressed tunnels ending in client plugins next to many short compressed connections, on two servers; kcp without tcpMux; visitor hand-over parked at a hook while the backend speaks first, on two servers; quic streams whose last read carries data and end-of-stream through a 4 KB/s limiter on either side); distinct = distinct full case signature; every counted connection moved checked bytes or a checked close through a real frpc-frps tunnel"
+	run.Rule = "case = (server option set, control transport, TLS mode, pool size; 2-3 proxies each with kind, encryption, compression, limiter side+rate, PROXY version, greeting; 3-8 (sometimes 16-36 small simultaneous) connection scripts each with payload sizes, content classes, chunkings, close order); the first cases form a greedy all-pairs covering array over the option factors, the rest are PRNG extras, plus four long-lived cases running next to the others (one per server: every proxy kind, data again in both directions 35 s after the connection was opened) and eleven (thorough: 23) fixed cases (control-connection loss with tcpMux off behind a relay, on both such servers; route churn: sibling tcpmux routes told apart by routeByHTTPUser / sibling https domains plus a wildcard route, one sibling removed by frpc reload or frpc exit and re-added; compressed tunnels ending in client plugins next to many short compressed connections, on two servers; kcp without tcpMux; visitor hand-over parked at a hook while the backend speaks first, on two servers; quic streams whose last read carries data and end-of-stream through a 4 KB/s limiter on either side); distinct = distinct full case signature; every counted connection moved checked bytes or a checked close through a real frpc-frps tunnel"
 	run.Assumptions = []string{
 		"'eventually delivered' is decided as bounded progress: 60 s without a byte on a connection whose both ends are open is a stall; a close must reach the other end within 30 s",
 		"kcp is excluded from the completeness clause of orderly close (the property says reliable transports); prefix, identity and close propagation are still judged over kcp",
@@ -141,6 +146,8 @@ func main() {
 	// and route churn: two sibling routes plus a wildcard route; one sibling is removed (frpc reload or frpc exit)
 	// and re-added; the others must stay bridged to their own backends throughout
 	cases = append(cases, churnCases(run.Thorough(), run.RandFor("churn", 0))...)
+	// and control-connection loss without stream multiplexing: established tunnels must outlive it
+	cases = append(cases, ctlLossCase(2, run.Thorough()), ctlLossCase(3, run.Thorough()))
 	n = len(cases)
 
 	// Long-lived connections: one case per server, started now and running next to the cases below. Each opens
@@ -212,6 +219,126 @@ func visitorEarlyDataCase(server int) *caseCfg {
 	return &caseCfg{Server: server, A: cliOpts{Proto: "tcp", TLS: 0, Pool: 5}, B: cliOpts{Proto: "tcp", TLS: 0, Pool: 1}, GateVisitor: true,
 		Proxies: []proxyCfg{{Kind: "stcp", VEnc: true, Greet: true, Serial: true, Conns: []connCfg{
 			conn("duplex", "U", 1000, 1000, 21), conn("duplex", "B", 100, 3000, 23), conn("downclose", "B", 0, 5000, 25)}}}}
+}
+
+// ctlLossCase: tcpMux off, client A behind a relay; every proxy kind has established connections (first exchange
+// done) when the relay cuts exactly the control connection; frpc logs in again; the old connections must then still
+// carry their second exchange in both directions and close orderly.
+func ctlLossCase(server int, thorough bool) *caseCfg {
+	cc := &caseCfg{Server: server, A: cliOpts{Proto: "tcp", TLS: server % 2, Pool: 1 + 4*(server%2)}, B: cliOpts{Proto: "tcp", TLS: 0, Pool: 1}, CtlLoss: true}
+	k := 1
+	if thorough {
+		k = 3
+	}
+	for i, kind := range kinds {
+		p := proxyCfg{Kind: kind, Enc: i%2 == 0, Comp: i%3 == 0, VEnc: i%2 == 1, VComp: i%3 == 1, Greet: i == 4}
+		for j := 0; j < k; j++ {
+			s := uint64(4000 + 100*server + 10*i + j)
+			p.Conns = append(p.Conns, connCfg{Script: "longidle", NUp: int64(3000 + 7001*(i+j)%40000), NDown: int64(2000 + 9001*(i+2*j)%40000),
+				ClsUp: (i + j) % numClasses, ClsDown: (i + j + 1) % numClasses, ChunkUp: 4096, ChunkDown: 1460, ALPN: 3, DelayMs: 5 * (i + j), SeedUp: 2 * s, SeedDown: 2*s + 1})
+		}
+		cc.Proxies = append(cc.Proxies, p)
+	}
+	return cc
+}
+
+// controlLoss is the coordinator of a control-loss case.
+func controlLoss(cs *caseState, relay *h.TCPRelay, cli *h.Client, names []string, all []*plan) {
+	for _, pl := range all {
+		if !waitCh(pl.uGotAll, pl.uDone, 3*stallGrace) || !waitCh(pl.bGotAll, pl.bDone, 3*stallGrace) {
+			return // the first exchange of some connection failed (reported by its own monitor)
+		}
+	}
+	pairs := relay.Pairs()
+	if len(pairs) == 0 {
+		run.Inconclusive("relay saw no connection")
+		return
+	}
+	// the session of client A at frps, and a recorder for its re-login (hook: frps is about to start the control that
+	// replaces the old one, i.e. the old session has been torn down completely)
+	owns := func(runID string) bool {
+		for _, ss := range cs.sv.s.Snapshot().Sessions {
+			if runID != "" && ss.RunID != runID {
+				continue
+			}
+			have := map[string]bool{}
+			for _, n := range ss.Proxies {
+				have[n] = true
+			}
+			all := true
+			for _, n := range names {
+				all = all && have[n]
+			}
+			if all {
+				return true
+			}
+		}
+		return false
+	}
+	runID := ""
+	for _, ss := range cs.sv.s.Snapshot().Sessions {
+		for _, n := range ss.Proxies {
+			if n == names[0] {
+				runID = ss.RunID
+			}
+		}
+	}
+	if runID == "" || !owns(runID) {
+		run.Inconclusive("session of the client not found at frps")
+		return
+	}
+	relogin := make(chan struct{})
+	var once sync.Once
+	rm := h.OnHook("server.registerControl.beforeStart", runID, func(string, []any) { once.Do(func() { close(relogin) }) })
+	defer rm()
+	n0 := relay.Conns.Load()
+	pairs[0].Close() // the first connection of the session: login / control
+	cs.c.Ev("control-connection-cut", "relay_conns", n0, "run_id", runID)
+	run.Count("control_connections_cut", 1)
+	if !waitCh(relogin, nil, 40*time.Second) {
+		run.Inconclusive("frpc did not log in again after the control connection was cut")
+		return
+	}
+	// the new session has registered every proxy again (the old registrations were gone before the hook was reached)
+	if !h.Eventually(40*time.Second, func() bool { return owns(runID) }) {
+		run.Inconclusive("proxies not registered again after re-login")
+		return
+	}
+	if err := cli.WaitRunning(40*time.Second, names...); err != nil {
+		run.Inconclusive("proxies not running after re-login")
+		return
+	}
+	run.Count("relogins_after_control_loss", 1)
+	// The new session carries new connections. This is a liveness probe of the re-login, not a verdict: work connections
+	// that the old client session had dialed but not yet used are registered into the new session's pool at frps (same
+	// run id) and are closed by frpc when the old session ends, so the first user connections after a re-login can be
+	// reset (work-connection pool hygiene is property C11's subject). Up to 10 tries, failures are counted only.
+	for _, px := range cs.pxs {
+		if px.cfg.Kind != "tcp" {
+			continue
+		}
+		ok := false
+		for try := 0; try < 10 && !ok; try++ {
+			cfg := &connCfg{Script: "duplex", Closer: "U", NUp: 5000, NDown: 5000, ChunkUp: 1460, ChunkDown: 1460, SeedUp: 77 + uint64(2*try), SeedDown: 78 + uint64(2*try)}
+			pl := &plan{cs: cs, px: px, cfg: cfg, id: 1000 + try, softFail: true,
+				uGotAll: make(chan struct{}), bGotAll: make(chan struct{}), uClosed: make(chan struct{}), uDone: make(chan struct{}), bDone: make(chan struct{}),
+				phase2: make(chan struct{}), uGot2: make(chan struct{}), bGot2: make(chan struct{})}
+			sum := sha256.Sum256([]byte(fmt.Sprintf("probe|%d|%d|%s|%d", run.Seed, cs.c.Idx, px.name, try)))
+			copy(pl.nonce[:], sum[:16])
+			plans.Store(pl.nonce, pl)
+			userConn(pl)
+			plans.Delete(pl.nonce)
+			ok = pl.attached.Load() && !pl.failed.Load()
+			if !ok {
+				time.Sleep(50 * time.Millisecond)
+			}
+		}
+		if ok {
+			run.Count("new_connections_after_relogin", 1)
+		} else {
+			run.Inconclusive("no new connection got through after the re-login")
+		}
+	}
 }
 
 const longLivedBase = 100000 // case indexes of the long-lived cases (one per server)
@@ -374,15 +501,20 @@ type plan struct {
 	altPx        *proxyRT
 	mayRefuse    bool
 	afterRemoval bool
-	inPhase2     atomic.Bool // longidle: the second exchange (after the long idle period) has begun
-	phase2       chan struct{}
-	uGot2        chan struct{}
-	bGot2        chan struct{}
-	uGotAll      chan struct{}
-	bGotAll      chan struct{}
-	uClosed      chan struct{}
-	uDone        chan struct{}
-	bDone        chan struct{}
+	afterDup     bool // route churn: a duplicate registration for this (or a sibling) route has just been refused
+	// control-loss case: the second exchange of a longidle connection starts when gate2 is closed
+	gate2    chan struct{}
+	ctlLoss  bool
+	softFail bool        // a probe connection whose failure is recorded but not judged
+	inPhase2 atomic.Bool // longidle: the second exchange (after the long idle period) has begun
+	phase2   chan struct{}
+	uGot2    chan struct{}
+	bGot2    chan struct{}
+	uGotAll  chan struct{}
+	bGotAll  chan struct{}
+	uClosed  chan struct{}
+	uDone    chan struct{}
+	bDone    chan struct{}
 
 	bUp   readRes
 	uDown readRes
@@ -418,10 +550,25 @@ func (cs *caseState) fail(pl *plan, key string, format string, args ...any) {
 		if !pl.failed.CompareAndSwap(false, true) {
 			return
 		}
+		if pl.softFail {
+			cs.c.Ev("probe-failed", "key", key, "what", fmt.Sprintf(format, args...))
+			cs.run.Count("probe_connections_failed_unjudged", 1)
+			return
+		}
 		if pl.afterRemoval && key == "cross-wired" {
 			key = "cross-wired-after-sibling-route-removed"
 		}
-		if pl.inPhase2.Load() {
+		if pl.afterDup {
+			switch key {
+			case "cross-wired":
+				key = "cross-wired-after-refused-duplicate-registration"
+			case "unprompted-close", "delivery-stalled", "sniffed-prefix-not-replayed", "stream-altered-down", "stream-altered-up":
+				key = "route-lost-after-refused-duplicate-registration"
+			}
+		}
+		if pl.inPhase2.Load() && pl.ctlLoss {
+			key = "established-tunnel-cut-by-control-connection-loss-without-tcpmux"
+		} else if pl.inPhase2.Load() {
 			// whatever the symptom: the connection worked when it was opened and fails after having been idle
 			key = "long-lived-connection-broken-after-idle-" + pl.px.cfg.Kind
 		}
@@ -624,6 +771,17 @@ func runCase(c *h.Case, cc *caseCfg, sv *srvInfo) {
 		}
 		plugs = append(plugs, pr)
 	}
+	var relay *h.TCPRelay
+	if cc.CtlLoss {
+		// client A reaches frps through a relay, so that exactly its control connection can be cut
+		var err error
+		if relay, err = h.StartTCPRelay(pa.Get(), fmt.Sprintf("127.0.0.1:%d", sv.bindPort), 1); err != nil {
+			run.Inconclusive("relay listen failed")
+			return
+		}
+		defer relay.Close()
+		aText = strings.Replace(aText, fmt.Sprintf("serverPort = %d\n", sv.bindPort), fmt.Sprintf("serverPort = %d\n", relay.Port), 1)
+	}
 	c.Data["frpc_a"], c.Data["frpc_b"] = aText, ""
 
 	cliA, err := h.StartClientText(prop, aText)
@@ -675,6 +833,7 @@ func runCase(c *h.Case, cc *caseCfg, sv *srvInfo) {
 	var wg sync.WaitGroup
 	id := 0
 	var all []*plan
+	ctlGate := make(chan struct{})
 	for _, px := range cs.pxs {
 		px := px
 		var pls []*plan
@@ -687,6 +846,9 @@ func runCase(c *h.Case, cc *caseCfg, sv *srvInfo) {
 			copy(pl.nonce[:], sum[:16])
 			plans.Store(pl.nonce, pl)
 			defer plans.Delete(pl.nonce)
+			if cc.CtlLoss {
+				pl.gate2, pl.ctlLoss = ctlGate, true
+			}
 			pls = append(pls, pl)
 			all = append(all, pl)
 		}
@@ -711,6 +873,14 @@ func runCase(c *h.Case, cc *caseCfg, sv *srvInfo) {
 				}()
 			}
 			w2.Wait()
+		}()
+	}
+	if cc.CtlLoss {
+		wg.Add(1)
+		go func() {
+			defer wg.Done()
+			defer close(ctlGate)
+			controlLoss(cs, relay, cliA, names, all)
 		}()
 	}
 	for _, pr := range plugs {
